@@ -663,7 +663,7 @@ func (w *World) DisputeStory(o HistOpts) {
 		}
 		b := backers[w.pick(len(backers))]
 		dels, _ := w.App.StakingKeeper.GetDelegatorDelegations(w.Ctx, b.Addr, 10)
-		var outs []func()
+		var outs, early []func()
 		for _, d := range dels {
 			va, _ := sdk.ValAddressFromBech32(d.ValidatorAddress)
 			v, err := w.App.StakingKeeper.GetValidator(w.Ctx, va)
@@ -675,8 +675,14 @@ func (w *World) DisputeStory(o HistOpts) {
 				if wv.ValAddr.String() == d.ValidatorAddress && tok > 1000 {
 					wv := wv
 					take := tok - tok/int64(50+w.pick(400))
-					if w.pick(2) == 0 {
+					if k := w.pick(3); k == 0 {
 						outs = append(outs, func() { w.Undelegate(b, wv, take) })
+					} else if k == 1 {
+						// ... in two steps, a small one first (two unbonding entries of different heights: the slash
+						// must go through both)
+						small := take / int64(3+w.pick(20))
+						early = append(early, func() { w.Undelegate(b, wv, small) })
+						outs = append(outs, func() { w.Undelegate(b, wv, take-small) })
 					} else {
 						// ... or moves most of it to another validator: the slash must follow the redelegation for what is missing
 						to := w.Vals[(w.pick(len(w.Vals)-1)+1+indexOfVal(w.Vals, wv))%len(w.Vals)]
@@ -684,6 +690,9 @@ func (w *World) DisputeStory(o HistOpts) {
 					}
 				}
 			}
+		}
+		if len(early) > 0 {
+			w.block(o, 3*sec, early...)
 		}
 		w.block(o, 3*sec, outs...)
 	} else {
